@@ -37,6 +37,10 @@ CHECKS = {
     'C10': dict(engine='E1-kani', technique='bounded model checking (Kani/CBMC, CaDiCaL) of every generated Into<T>::into against a per-target oracle',
                 text='For every requested target, variant and value CBMC decides that into() returns the designated field (marker, sole field or unique same-typed field) passed through its per-target method, unchanged, or through Into.',
                 ref='DESIGN.md §4 C10'),
+    'C20': dict(engine='E1-kani', technique='bounded model checking (Kani/CBMC, CaDiCaL) of the generated union eq/hash/clone/default/fmt over arbitrary bytes',
+                text='For every union layout in the grammar (sizes 1..8, alignments 1..8, with and without padding, one generic) CBMC decides for every byte pattern that == is equality of the size_of::<Self>() bytes, hash feeds exactly those bytes as one slice, clone is a bitwise copy, default initialises the designated field from its own source; Debug equals debug_tuple(name).field(&bytes) / Debug::fmt(bytes) on fixed byte patterns in both modes and on arbitrary bytes for size 1.',
+                ref='DESIGN.md §4 C20',
+                note=E1_NOTE + ' The "only behind unsafe" half of the statement is a rejection fact and is not claimed. STUB in {:#?} harnesses as for C06.'),
 }
 
 NOT_APPLICABLE = {
@@ -45,7 +49,7 @@ NOT_APPLICABLE = {
     'C16': "the only varying input is std's per-process RandomState seed inside HashMap iteration; it cannot be made symbolic without executing the macro symbolically, which is unavailable here",
 }
 
-PENDING = {k: 'check not built yet at this commit (planned, see DESIGN.md §0); not claimed until it is' for k in ['C11','C12','C14','C15','C17','C18','C19','C20']}
+PENDING = {k: 'check not built yet at this commit (planned, see DESIGN.md §0); not claimed until it is' for k in ['C11','C12','C14','C15','C17','C18','C19']}
 
 
 def build():
